@@ -245,10 +245,18 @@ type nestFam struct {
 	nests [][]gen.Kind
 	exits []gen.Exit
 	decls [][]gen.Decl
+	gfs   []gen.DKind // kinds of the generic-for closing value (nil: one, unused)
+}
+
+func (f *nestFam) ngf() uint64 {
+	if len(f.gfs) == 0 {
+		return 1
+	}
+	return uint64(len(f.gfs))
 }
 
 func (f *nestFam) size() uint64 {
-	return uint64(len(f.nests)) * uint64(len(f.exits)) * uint64(len(f.decls))
+	return uint64(len(f.nests)) * uint64(len(f.exits)) * uint64(len(f.decls)) * f.ngf()
 }
 
 // at: the nesting is the least significant digit, then the exit, then the
@@ -260,7 +268,12 @@ func (f *nestFam) at(i uint64) *gen.Spec {
 	i /= nn
 	e := f.exits[i%ne]
 	i /= ne
-	s := &gen.Spec{Nest: n, Decls: f.decls[i], Exit: e.X, E: e.E, W: e.W}
+	var gf gen.DKind
+	if len(f.gfs) > 0 {
+		gf = f.gfs[i%f.ngf()]
+		i /= f.ngf()
+	}
+	s := &gen.Spec{Nest: n, Decls: f.decls[i], Exit: e.X, E: e.E, W: e.W, GF: gf}
 	if !s.Valid() {
 		return nil
 	}
@@ -365,22 +378,22 @@ func Families(tier string) []*core.Family {
 	}
 	// the main chunk called WITHOUT a context (plain rt.Call)
 	uf := &nestFam{name: "unprotected-host-call", nests: gen.Nestings(1, []gen.Kind{gen.KChunk}), exits: gen.Exits(1, 1),
-		decls: declRange(1, 0, 2, handlers, nil)}
+		decls: append(declRange(1, 0, 1, []gen.DKind{gen.HLog, gen.HRaise}, nil), declRange(1, 2, 2, []gen.DKind{gen.HLog}, nil)...)}
 	fams = append(fams, uf.family(15, false))
 	var chunkNests [][]gen.Kind
-	for _, n := range gen.Nestings(2, allKinds) {
+	for _, n := range gen.Nestings(2, []gen.Kind{gen.KChunk, gen.KFunc, gen.KPcall, gen.KCoCreate}) {
 		if n[0] == gen.KChunk {
 			chunkNests = append(chunkNests, n)
 		}
 	}
 	uf2 := &nestFam{name: "unprotected-host-call-d2", nests: chunkNests, exits: gen.Exits(2, 1),
-		decls: declRange(2, 1, 2, []gen.DKind{gen.HLog, gen.HRaise}, nil)}
+		decls: declRange(2, 1, 1, []gen.DKind{gen.HLog, gen.HRaise}, nil)}
 	fams = append(fams, uf2.family(15, false))
 	// a coroutine that ends with an error keeps its stack: depth <= 2 nestings
 	// with a coroutine level, error exits
 	var coNests [][]gen.Kind
 	for d := 1; d <= 2; d++ {
-		for _, n := range gen.Nestings(d, []gen.Kind{gen.KDo, gen.KFunc, gen.KPcall, gen.KCoCreate, gen.KCoWrap}) {
+		for _, n := range gen.Nestings(d, []gen.Kind{gen.KDo, gen.KPcall, gen.KCoCreate}) {
 			for _, k := range n {
 				if k.IsCo() {
 					coNests = append(coNests, n)
@@ -448,35 +461,34 @@ func extraKindFamily(name string, extra gen.Kind, gfKinds, dk []gen.DKind, thoro
 			}
 		}
 	}
-	type cfg struct {
-		nest  []gen.Kind
-		gf    gen.DKind
-		decls []gen.Decl
-		exit  gen.Exit
-	}
-	var cfgs []cfg
 	kmax, maxW := 1, 1
 	if thorough {
 		kmax, maxW = 2, 2
 	}
-	for k := 0; k <= kmax; k++ {
+	// two index-addressable parts (depth 1, depth 2) under one family name;
+	// nothing is materialised beyond the small digit lists
+	var parts []*nestFam
+	for d := 1; d <= 2; d++ {
+		var ns [][]gen.Kind
 		for _, n := range nests {
-			d := len(n)
-			for _, ds := range gen.DeclConfigs(d, k, dk, nil) {
-				for _, gf := range gfKinds {
-					for _, e := range gen.Exits(d, maxW) {
-						s := &gen.Spec{Nest: n, Decls: ds, Exit: e.X, E: e.E, W: e.W, GF: gf}
-						if s.Valid() {
-							cfgs = append(cfgs, cfg{n, gf, ds, e})
-						}
-					}
-				}
+			if len(n) == d {
+				ns = append(ns, n)
 			}
 		}
+		parts = append(parts, &nestFam{name: name, nests: ns, exits: gen.Exits(d, maxW), decls: declRange(d, 0, kmax, dk, nil), gfs: gfKinds})
 	}
 	at := func(i uint64) *gen.Spec {
-		c := cfgs[i]
-		return &gen.Spec{Nest: c.nest, Decls: c.decls, Exit: c.exit.X, E: c.exit.E, W: c.exit.W, GF: c.gf}
+		for _, p := range parts {
+			if i < p.size() {
+				return p.at(i)
+			}
+			i -= p.size()
+		}
+		return nil
+	}
+	var size uint64
+	for _, p := range parts {
+		size += p.size()
 	}
 	budget := 15
 	if thorough {
@@ -484,12 +496,21 @@ func extraKindFamily(name string, extra gen.Kind, gfKinds, dk []gen.DKind, thoro
 	}
 	return &core.Family{
 		Name: name,
-		Size: uint64(len(cfgs)),
+		Size: size,
 		Run: func(i uint64) core.Outcome {
 			s := at(i)
+			if s == nil {
+				return core.Outcome{Skipped: true}
+			}
 			return runCase(name, s.Key(), s.Lua(), true)
 		},
-		Show:          func(i uint64) string { s := at(i); return s.Key() + "\n" + s.Lua() },
+		Show: func(i uint64) string {
+			s := at(i)
+			if s == nil {
+				return "(not canonical)"
+			}
+			return s.Key() + "\n" + s.Lua()
+		},
 		BudgetSeconds: scaled(budget),
 	}
 }
